@@ -135,16 +135,16 @@ Print Assumptions c20_model_meets_spec.
    - ID.Base32: for every id below 2^63 — negative ones included, where code and model both panic — and every fuel >= 14
      (13 digit iterations at most, 6 swaps), lift: None = panic;
    - getRand: for every n >= 0 (n is a uint32 in the code) and every max, the uint32 conversion and the zero divisor included;
-   - the bits loop: for every start value and every fuel f+1 with len < 2^f it is the model's bits_loop with the same
-     fuel; with fuel 64 it is what new_sgen computes. *)
+   - the bits loop (`var bits int` + the loop, a fragment): for every fuel f+1 with len < 2^f it is the model's bits_loop
+     with the same fuel; with fuel 64 it is what new_sgen computes. *)
 Theorem c20_code_is_model :
   (g_init_decodeBase32Map 300 g0_decodeBase32Map = Ret decode_table) /\
   (forall fuel bs, Forall (fun c => 0 <= c < 256) bs -> (length bs < fuel)%nat ->
      g_ParseBase32 fuel decode_table bs = Ret (parse_res (parse_base32 bs))) /\
   (forall fuel f, f < 2 ^ 63 -> (14 <= fuel)%nat -> g_ID_Base32 fuel f = lift (base32 f)) /\
   (forall n mx, 0 <= n -> g_CountGenerator_getRand n mx = lift (get_rand n mx)) /\
-  (forall f r bits, zlen r < 2 ^ Z.of_nat f -> g_NewStrGenerator_loop1 (S f) r bits = Ret (bits_loop (S f) (zlen r) bits)) /\
-  (forall r, zlen r < 2 ^ 63 -> g_NewStrGenerator_loop1 64 r 0 = Ret (bits_loop 64 (Z.of_nat (length r)) 0)).
+  (forall f r, zlen r < 2 ^ Z.of_nat f -> g_NewStrGenerator_loop1 (S f) r = Ret (bits_loop (S f) (zlen r) 0)) /\
+  (forall r, zlen r < 2 ^ 63 -> g_NewStrGenerator_loop1 64 r = Ret (bits_loop 64 (Z.of_nat (length r)) 0)).
 Proof.
   exact (conj code_init (conj code_ParseBase32 (conj code_Base32 (conj code_getRand (conj code_bits_loop code_bits_loop64))))).
 Qed.
